@@ -21,7 +21,8 @@ RULE = ("(shipped) the 16 shipped .itp files; (generated) topology texts: option
         "tabs, last line with or without newline. Non-trivial = a repeated section name or a content line with an "
         "empty or multiple trailing comment. Distinct = sha1 of the text.")
 ASSUMPTIONS = [
-    "ASCII files; preprocessor lines start in column 0; section header lines carry no trailing comment",
+    "ASCII files; preprocessor lines start in column 0, or are indented inside sections whose lines the library does "
+    "not type (everything but moleculetype/atoms/bonds/constraints/pairs); section header lines carry no trailing comment",
     "section names that are substrings of 'moleculetype' (an unrelated quirk of the line typing) and the name "
     "'header' (the library's key for the text before the first section) are not generated",
     "blank lines and empty comment markers carry no information; comments are compared modulo blanks around ';'",
@@ -97,8 +98,12 @@ def section_lines(draw, sec, state, stats):
         elif kind == "marker":
             lines.append(";")
         else:
-            lines.append(draw(st.sampled_from(["#ifdef FLEXIBLE", "#endif", "#else", '#include "x.itp"',
-                                               "#define K 1000", "#ifndef HEAVY_H"])))
+            d = draw(st.sampled_from(["#ifdef FLEXIBLE", "#endif", "#else", '#include "x.itp"',
+                                      "#define K 1000", "#ifndef HEAVY_H"]))
+            if sec not in ("moleculetype", "atoms", "bonds", "constraints", "pairs") and draw(st.integers(0, 2)) == 0:
+                d = draw(st.sampled_from(["  ", "\t", "    "])) + d        # indented directive (untyped sections only)
+                stats.add("indented-directive")
+            lines.append(d)
     return lines
 
 
